@@ -13,7 +13,7 @@ func init() { register("C10", checkC10) }
 var u11 = []string{`null`, `true`, `1`, `"a"`, `[]`, `[1]`, `["a"]`, `[1,"a"]`, `[[1]]`, `{}`, `{"a":1}`}
 
 func callNames() []string {
-	return append(model.FunctionNames(), "nosuch", "Length")
+	return append(model.FunctionNames(), "nosuch", "Length", "zzz", "values_of", "a", "sort_bY")
 }
 
 // tuples enumerates all n-tuples over alphabet (as index vectors).
